@@ -2064,7 +2064,7 @@ class _GroupElem(ABC):
             matrixType = MatrixType.mass
             jacobian_e_pg = self.Get_jacobian_e_pg(matrixType, absoluteValues=False)
             invF_e_pg = self.Get_invF_e_pg(matrixType)
-            dN_tild = self._dN()
+            N_tild = self._N()
             xiOrigin = self.origin  # origin of the reference element (ξ0,η0)
 
             # Check whether iterative resolution is required
@@ -2123,16 +2123,17 @@ class _GroupElem(ABC):
 
                 else:
                     # This is the most time-consuming method.
-                    # We need to construct the Jacobian matrices here.
                     def Eval(xi: _types.FloatArray, xP: _types.FloatArray):
-                        dN = _GroupElem._Eval_Functions(dN_tild, xi.reshape(1, -1))
-                        F = dN[0] @ coordElemBase[:, :dim]  # jacobian matrix [J]
-                        J = x0 + (xi - xiOrigin) @ F - xP  # cost function
+                        N = _GroupElem._Eval_Functions(N_tild, xi.reshape(1, -1))
+                        # residual of the isoparametric map x(xi) = N(xi) X
+                        J = N[0, 0] @ coordElemBase[:, :dim] - xP
                         return J
 
                     xiP = []
                     for xP in xP_n:
-                        res = least_squares(Eval, 0 * xP, args=(xP,))
+                        res = least_squares(
+                            Eval, 0 * xP, args=(xP,), xtol=1e-14, ftol=1e-14, gtol=1e-14
+                        )
                         xiP.append(res.x)
 
                 # xiP are the n coordinates of the n points in (ξ, η, ζ).
